@@ -1466,6 +1466,9 @@ pub fn build(d: &mut Dna, cfg: &GenCfg) -> Built {
         if has_disc && d.chance(80) {
             m |= 2;
         }
+        if has_fields && spec.all_fields().any(|f| !f.attrs.is_empty()) && d.chance(60) {
+            m |= 4;
+        }
         if m != 0 {
             spec.via_macro = m;
             classes.push("definition_via_macro_rules");
